@@ -315,8 +315,32 @@ func (h *HInner) InnerPM() string { return "p" }
 type HEnv struct {
 	A int
 	HInner
-	Fn  func(int) int
-	Obj *HEnvObj
+	Fn       func(int) int
+	Obj      *HEnvObj
+	Val      HValOuter  // a struct-valued member embedding HInner by value
+	PVal     *HValOuter // the same behind a pointer
+	XXX_Size int        // protobuf-style name: an ordinary exported member at the top level
+	FnObj    HFnObj
+	IntKeys  map[int]string
+	NamedKey map[HKey]int
+}
+
+// function-valued fields: unexported ones are not members; among promoted ones
+// the shallowest wins, as for any other field
+type HFnDeep struct{ F func() int }
+type HFnA struct{ HFnDeep }
+type HFnB struct{ F func() string }
+type HFnObj struct {
+	HFnA // F at depth 2
+	HFnB // F at depth 1: this one is Obj.F
+	G    func() int
+	g    func() int
+}
+type HKey string
+
+type HValOuter struct {
+	HInner
+	K int
 }
 type HEnvObj struct{ N int }
 
@@ -470,7 +494,9 @@ func c16Handwritten(c *runner.Ctx, idx uint64) {
 		src  string
 		goOK int
 	}
-	he := HEnv{A: 1, Fn: func(i int) int { return i * 2 }, Obj: &HEnvObj{N: 5}}
+	he := HEnv{A: 1, Fn: func(i int) int { return i * 2 }, Obj: &HEnvObj{N: 5}, Val: HValOuter{K: 2}, PVal: &HValOuter{K: 3}, XXX_Size: 4,
+		FnObj:   HFnObj{HFnA: HFnA{HFnDeep{F: func() int { return 1 }}}, HFnB: HFnB{F: func() string { return "s" }}, G: func() int { return 2 }, g: func() int { return 3 }},
+		IntKeys: map[int]string{1: "a"}, NamedKey: map[HKey]int{"a": 1}}
 	fnI := func() int { return 3 }
 	hs := HShadow{HFuncs: HFuncs{Label: fnI, Cnt: 1}, Tag: func() int { return 9 }, Inner: HShadowInner{HFuncs{Label: fnI, Cnt: 2}}}
 	cases := []struct {
@@ -480,10 +506,13 @@ func c16Handwritten(c *runner.Ctx, idx uint64) {
 		names  []string
 	}{
 		{"HEnv (value)", he, []probe{{"A", 1}, {"IV", 1}, {"HInner", 1}, {"HInner.IV", 1}, {"Fn(2)", 1}, {"ValM(1)", 1}, {"InnerM()", 1}, {"PtrM()", -1}, {"InnerPM()", -1}, {"unexpM()", 0},
-			{"ValM", -1}, {"[InnerM]", -1}, {"PtrM == nil", -1}, {"Obj.N", 1}, {"Obj.Get()", 1}, {"Obj.Set(3)", 1}, {"Obj.Missing()", 0}, {"HInner.InnerM()", 1}, {"valM(1)", 0}, {"Missing()", 0}, {"A()", 0}, {"Obj.n", 0}},
-			[]string{"A", "IV", "HInner", "Fn", "Obj", "ValM", "InnerM", "PtrM", "InnerPM", "unexpM"}},
-		{"*HEnv (pointer)", &he, []probe{{"PtrM", -1}, {"ValM", -1}, {"A", 1}, {"IV", 1}, {"Fn(2)", 1}, {"ValM(1)", 1}, {"InnerM()", 1}, {"PtrM()", 1}, {"InnerPM()", 1}, {"unexpM()", 0}, {"Obj.Set(3)", 1}, {"Obj.Get()", 1}},
-			[]string{"A", "IV", "HInner", "Fn", "Obj", "ValM", "InnerM", "PtrM", "InnerPM", "unexpM"}},
+			{"ValM", -1}, {"[InnerM]", -1}, {"PtrM == nil", -1}, {"Obj.N", 1}, {"Obj.Get()", 1}, {"Obj.Set(3)", 1}, {"Obj.Missing()", 0}, {"HInner.InnerM()", 1}, {"valM(1)", 0}, {"Missing()", 0}, {"A()", 0}, {"Obj.n", 0},
+			{"Val.K", 1}, {"Val.IV", 1}, {"Val.InnerM()", 1}, {"Val.InnerPM()", -1}, {"Val.HInner.InnerPM()", -1}, {"PVal.K", 1}, {"PVal.InnerM()", 1}, {"PVal.InnerPM()", -1}, {"XXX_Size", 1}, {"XXX_Size + 1", 1},
+			{"FnObj.G()", 1}, {"FnObj.G() + 1", 1}, {"FnObj.g()", 0}, {"FnObj.F()", 1}, {"FnObj.F() + \"!\"", 1}, {"FnObj.HFnA.F() + 1", 1}, {"IntKeys[1]", 1}, {"IntKeys.a", -1}, {"NamedKey.a", -1}, {"NamedKey[\"a\"]", -1}, {"len(IntKeys)", 1}},
+			[]string{"A", "IV", "HInner", "Fn", "Obj", "ValM", "InnerM", "PtrM", "InnerPM", "unexpM", "Val", "PVal", "XXX_Size", "FnObj", "IntKeys", "NamedKey"}},
+		{"*HEnv (pointer)", &he, []probe{{"PtrM", -1}, {"ValM", -1}, {"A", 1}, {"IV", 1}, {"Fn(2)", 1}, {"ValM(1)", 1}, {"InnerM()", 1}, {"PtrM()", 1}, {"InnerPM()", 1}, {"unexpM()", 0}, {"Obj.Set(3)", 1}, {"Obj.Get()", 1},
+			{"Val.InnerM()", 1}, {"Val.InnerPM()", -1}, {"PVal.InnerPM()", -1}, {"PVal.IV", 1}, {"XXX_Size", 1}, {"FnObj.F() + \"!\"", 1}, {"FnObj.g()", 0}},
+			[]string{"A", "IV", "HInner", "Fn", "Obj", "ValM", "InnerM", "PtrM", "InnerPM", "unexpM", "Val", "PVal", "XXX_Size", "FnObj", "IntKeys", "NamedKey"}},
 		{"HShadow (method over promoted func field)", hs, []probe{{"Label()", 1}, {"Label() + \"!\"", 1}, {"Inner.Label()", 1}, {"Inner.Label() + \"!\"", 1}, {"HFuncs.Label()", 1}, {"HFuncs.Label() + 1", 1},
 			{"Inner.HFuncs.Label() + 1", 1}, {"Tag()", 1}, {"Tag() + 1", 1}, {"HTagged2.Tag() + \"!\"", 1}, {"Cnt + 1", 1}, {"Other()", 1}, {"K", 1}},
 			[]string{"Label", "Tag", "Cnt", "Other", "K", "Inner", "HFuncs", "HTagged2"}},
@@ -502,7 +531,7 @@ func c16Handwritten(c *runner.Ctx, idx uint64) {
 			c.Distinct(cs.desc + "|" + p.src)
 			ok := c16Judge(c, cs.desc, cs.env, p.src, p.goOK, nil)
 			name := strings.SplitN(strings.SplitN(p.src, "(", 2)[0], ".", 2)[0]
-			if !strings.ContainsAny(p.src, " +") {
+			if !strings.ContainsAny(p.src, " +[") && !strings.HasPrefix(p.src, "len(") {
 				if ok {
 					accepted[name] = true
 				} else if _, seen := accepted[name]; !seen {
